@@ -155,6 +155,10 @@ class Type:
         return self.find_field(field, set()) is not None
 
     def add_attr(self, field: str, value):
+        if 'fields' not in self.__dict__:
+            # The class-level table describes the type itself and is shared by every analysis
+            # in the process; an attribute assigned in one program belongs to that value only
+            self.fields = dict(self.fields)
         self.fields[field] = value
 
     def find_field(self, field: str, seen: set):
